@@ -1,12 +1,12 @@
 package checks
 
 import (
-	"io"
 	"bytes"
 	"context"
 	"encoding/json"
 	"errors"
 	"fmt"
+	"io"
 	"os"
 	"os/exec"
 	"runtime"
